@@ -574,6 +574,7 @@ RESERVED = {"length": "length", "fix": "fix_", "in": "in_", "end": "end_", "let"
 
 
 class Emitter:
+    readonly = set()
     struct_defs = {}
     int_oracles = {"dtw_wps_shift"}      # functions returning idx_t
 
@@ -593,7 +594,7 @@ class Emitter:
                 self.types[n] = ty
         self.types["ok"] = "bool"
         self.struct_vars = {}     # local struct variable -> {member: type}
-        self.out_arrays = [n for ty, n in params if ty == "arr"]
+        self.out_arrays = [n for ty, n in params if ty == "arr" and n not in Emitter.readonly]
         self.defs = []        # (name, [(param, type)], ret type, text)
         self.nloop = 0
         self.njoin = 0
@@ -1143,16 +1144,24 @@ def parse_struct(hdr, name):
     return out
 
 
-def translate_function(src, hdr, fname, in_bounds, out_arrays=()):
+def translate_function(src, hdr, fname, in_bounds, out_arrays=(), extra_params=(), cost_arrays=()):
     """-> list of (definition name, [(param, coq type)], return type, body text);
-    out_arrays: {seq_t* parameter that is written: name of an extra parameter holding its number of cells}"""
+    out_arrays: {seq_t* parameter that is written: name of an extra parameter holding its number of cells};
+    extra_params: names of further idx_t parameters the bounds of the input arrays mention;
+    cost_arrays: seq_t* parameters that are only read but hold costs (infinity allowed), not series values"""
     ptxt, body = function_text(strip_comments(src), fname)
+    if re.search(r"^void\s+%s\s*\(" % re.escape(fname), strip_comments(src), flags=re.M):
+        # a void function: falling off the end returns 0 (a `return;` inside is not accepted by the parser)
+        body = body + "\nreturn 0;\n"
     params = parse_params(ptxt)
     out_arrays = dict(out_arrays)
-    params = [(("arr", n) if (ty == "in" and n in out_arrays) else (ty, n)) for ty, n in params]
+    params = [(("arr", n) if (ty == "in" and (n in out_arrays or n in cost_arrays)) else (ty, n)) for ty, n in params]
     for a, ln in out_arrays.items():
         params.append(("Z", ln))
+    for ln in extra_params:
+        params.append(("Z", ln))
     Emitter.struct_defs = {v: parse_struct(hdr, v) for v in STRUCT_TYPES.values()}
+    Emitter.readonly = set(cost_arrays)
     body = preprocess(body)
     P = Parser(tokenize(body))
     stmts = []
